@@ -18,6 +18,9 @@ func ddmin[T any](items []T, test func([]T) bool, deadline time.Time) []T {
 		reduced := false
 		// try complements (remove one chunk)
 		for start := 0; start < len(items); start += chunk {
+			if time.Now().After(deadline) {
+				return items
+			}
 			end := start + chunk
 			if end > len(items) {
 				end = len(items)
